@@ -6,7 +6,7 @@ from jsonpath import Projection
 
 from . import sx as SX
 from . import qgen as Q
-from .common import exc_name, gen_container, deep
+from .common import all_locs, exc_name, gen_container, deep
 from .c05 import canon_unordered
 
 ID = "C19"
@@ -134,12 +134,38 @@ def gen_keys_only(rng, tier):
                "seed": rng.randrange(1 << 30)}
 
 
+def gen_whole_then_deeper(rng, tier):
+    """a container selected whole, then a descendant several levels below it, through arrays: whatever the projection
+    is there, the DOCUMENT must stay as it was"""
+    for _ in range(600 if tier == "thorough" else 80):
+        doc = {"a": {"b": [{"c": 1, "d": 0}, {"c": 2, "d": 3}], "e": 5}, "z": 1, "k": {"a": {"b": [{"d": 0}, {"c": 2, "d": 3}], "e": [[1, 9], [2]]}}}
+        if rng.random() < 0.5:
+            doc = gen_container(rng, 4, 3, NAMES)
+        locs = [l for l, v in all_locs(doc) if l and isinstance(v, (dict, list)) and v]
+        if not locs:
+            continue
+        whole = rng.choice(locs)
+        below = [l for l, _ in all_locs(doc) if len(l) >= len(whole) + 2 and l[:len(whole)] == whole]
+        if not below:
+            continue
+        deeper = rng.choice(below)
+
+        def q_of(loc):
+            return {"first": {"fake": False, "segs": [["list", ["name", p]] if isinstance(p, str) else ["list", ["idx", p]] for p in loc]}, "rest": []}
+        rels = [q_of(whole), q_of(deeper)]
+        if rng.random() < 0.3:
+            rels.reverse()
+        yield {"style": rng.choice(["relative", "root"]), "match": {"first": {"fake": False, "segs": []}, "rest": []}, "rels": rels, "doc": doc,
+               "seed": rng.randrange(1 << 30)}
+
+
 _gen_main = gen
 
 
 def gen(rng, tier):      # noqa: F811
     yield from _gen_main(rng, tier)
     yield from gen_keys_only(rng, tier)
+    yield from gen_whole_then_deeper(rng, tier)
 
 
 def texts(case):
